@@ -80,14 +80,16 @@ theorem vec?_none_existingVec {r : Reg V} {ty : MType} {a : GetArgs V}
 
 /-- **the vector of the touched series.** After an applied event on a well-formed registry: if the vector
     (metric name, label names) existed it is unchanged — help and bounds stay those of its creating event —;
-    otherwise it is the one this event creates: its label names, the event's help text and, for a
-    histogram, the event's bounds. -/
+    otherwise it is the one this event creates: its label names, the help string of the first vector ever
+    created for the metric name (`helpFor`; the event's own help text when the name has no vector yet) and, for
+    a histogram, the event's bounds. -/
 theorem step_vec {p p' : Pipe V} {rx : Rx} {ev : Ev V} {tags : Labels} (hw : RegWF p.reg)
     (h : handleEvent p rx ev tags = some (.ok p')) {t : Touch V} (ht : touchOf p rx ev tags = some t) :
     (∀ v, p.reg.vec? t.name (t.labels.map (·.1)) = some v → p'.reg.vec? t.name (t.labels.map (·.1)) = some v) ∧
     (p.reg.vec? t.name (t.labels.map (·.1)) = none →
       ∃ v, p'.reg.vec? t.name (t.labels.map (·.1)) = some v ∧ v.names = t.labels.map (·.1) ∧
-        v.help = evHelp p rx ev ∧ (t.ty = .histogram → v.bounds = evBounds p rx ev)) := by
+        v.help = (p.reg.firstHelp? t.name).getD (evHelp p rx ev) ∧
+        (t.ty = .histogram → v.bounds = evBounds p rx ev)) := by
   refine ⟨fun v hv => step_vec_keep h _ _ v hv, ?_⟩
   intro hnone
   rcases step_cases h with ⟨h0, _, _⟩ | ⟨c, pl, reg, hta, hg, e, htouch⟩
@@ -104,7 +106,9 @@ theorem step_vec {p p' : Pipe V} {rx : Rx} {ev : Ev V} {tags : Labels} (hw : Reg
         rw [vec?_none_existingVec hnone]
         simp only [Option.getD_none]
         obtain ⟨_, _, nm, _, hpl⟩ := evTarget_spec hta
-        refine ⟨trivial, (evTarget_args hta).2.2, ?_⟩
+        refine ⟨trivial, ?_, ?_⟩
+        · show (p.reg.firstHelp? pl.2.1.name).getD pl.2.1.help = _
+          rw [(evTarget_args hta).2.2]
         intro hty
         subst hpl
         exact evPlan_bounds p rx ev nm _ hty
